@@ -94,8 +94,12 @@ def _closure_of(body, op, closures):
     return closures.get(strip_generics(tag[len("closure:"):])), l
 
 
+_INLINED = set()
+
+
 def _inline(body, clo, clo_local, args, cont, sp):
     """append clo's blocks to body; -> (entry block, local holding the closure's result)"""
+    _INLINED.add(strip_generics(clo["path"]))
     lbase = len(body["locals"])
     body["locals"].extend(copy.deepcopy(clo["locals"]))
     pbase = len(body.setdefault("promoted", []))
@@ -203,18 +207,609 @@ def _lower_call(body, bi, closures):
     return True
 
 
+def _known():
+    from .mir import _known_functions
+    return _known_functions()
+
+
+def _inline_call(body, bi, callee, args, mark):
+    """replace the call terminating block bi by the callee's blocks (arguments assigned to its parameter locals, its return
+    value to the destination); `args`: list of operands"""
+    blk = body["blocks"][bi]
+    t = blk["term"]
+    sp, dest, cont = t["sp"], t["dest"], t["target"]
+    lbase = len(body["locals"])
+    body["locals"].extend(copy.deepcopy(callee["locals"]))
+    pbase = len(body.setdefault("promoted", []))
+    body["promoted"].extend(copy.deepcopy(callee.get("promoted", [])))
+    after = len(body["blocks"])
+    body["blocks"].append({"stmts": [_assign(dest, _use(_place(lbase), "move"), sp)], "term": _goto(cont, sp), "cleanup": False, "inl": mark})
+    entry = len(body["blocks"])
+    stmts = [_assign(_place(lbase + 1 + i), {"k": "Use", "op": copy.deepcopy(a)}, sp) for i, a in enumerate(args)]
+    body["blocks"].append({"stmts": stmts, "term": _goto(entry + 1, sp), "cleanup": False, "inl": mark})
+    for cb in callee["blocks"]:
+        nb = copy.deepcopy(cb)
+        _remap(nb, lbase, entry + 1, pbase)
+        if nb["term"]["k"] == "Return":
+            nb["term"] = _goto(after, nb["term"].get("sp", sp))
+        nb["inl"] = mark
+        nb["inl_ret"] = lbase
+        body["blocks"].append(nb)
+    blk["term"] = {"k": "Goto", "target": entry, "sp": sp, "inlined": mark}
+
+
+def _closure_behind(body, l, closures, depth=0):
+    """the closure body a local denotes, through copies / references of it (a generic parameter `f: F` of an inlined helper
+    that was given a closure of the caller)"""
+    if depth > 6:
+        return None, None
+    tag = body["locals"][l].get("tag") or ""
+    if tag.startswith("closure:"):
+        c = closures.get(strip_generics(tag[len("closure:"):]))
+        return (c, l) if c is not None else (None, None)
+    defs = [s for b in body["blocks"] for s in b["stmts"] if s["k"] == "Assign" and s["p"]["l"] == l and not s["p"]["proj"]]
+    if len(defs) != 1:
+        return None, None
+    rv = defs[0]["rv"]
+    if rv["k"] == "Use" and rv["op"].get("k") in ("move", "copy") and not rv["op"]["p"]["proj"]:
+        return _closure_behind(body, rv["op"]["p"]["l"], closures, depth + 1)
+    if rv["k"] == "Ref" and (not rv["p"]["proj"] or rv["p"]["proj"] == [["deref"]]):
+        return _closure_behind(body, rv["p"]["l"], closures, depth + 1)
+    return None, None
+
+
+def inline_helpers(raw):
+    """Crate functions the rules have no name for (not in spec/known_functions.json: helpers a later refactoring extracted)
+    are inlined into their callers, and so are calls - inside such inlined code - of closures the caller handed in.  The rules
+    then see the statements where they used to be.  Private helpers all of whose calls were inlined are dropped from the facts
+    (they have no independent existence); recursion and depth are bounded."""
+    known = _known()
+    by_path = {}
+    for b in raw["bodies"]:
+        if b["kind"] != "Closure":
+            by_path.setdefault(strip_generics(b["path"]), b)
+    closures = {strip_generics(b["path"]): b for b in raw["bodies"] if b["kind"] == "Closure"}
+    unknown = {p for p, b in by_path.items() if p not in known and not p.startswith("<") and "::test" not in p}
+    import json as _json, os as _os
+    direct_ok = set(_json.load(open(_os.path.join(_os.path.dirname(_os.path.dirname(_os.path.abspath(__file__))), "spec", "known_functions.json"))).get("direct_closure_callers", []))
+    n = 0
+    remaining = set()
+    for _pass in range(4):
+        changed = False
+        for body in raw["bodies"]:
+            me = strip_generics(body["path"])
+            for bi in range(len(body["blocks"])):
+                t = body["blocks"][bi]["term"]
+                if t["k"] != "Call" or t.get("target") is None or t["dest"]["proj"]:
+                    continue
+                callee = strip_generics(t.get("resolved") or t.get("callee") or "")
+                if callee in unknown and callee != me and len(body["blocks"]) < 4000:
+                    cb = by_path[callee]
+                    if len(t["args"]) == cb["arg_count"] and not cb.get("_has_unknown_pending"):
+                        _inline_call(body, bi, cb, t["args"], callee)
+                        n += 1
+                        changed = True
+                        continue
+                # a closure invoked directly: inside inlined code (`predicate(b)` in an extracted polling loop), or a local
+                # closure of a function that had none when the rules were written (`let end_of_fats = || ..; end_of_fats()`)
+                if (body["blocks"][bi].get("inl") or me.split("::{closure")[0] not in direct_ok) and strip_generics(t.get("callee") or "") in ("core::ops::Fn::call", "core::ops::FnMut::call_mut", "core::ops::FnOnce::call_once") and len(t["args"]) == 2:
+                    a0, a1 = t["args"]
+                    if a0.get("k") in ("move", "copy") and not a0["p"]["proj"] and (a1.get("k") == "const" or a1.get("k") in ("move", "copy") and not a1["p"]["proj"]):
+                        clo, cl = _closure_behind(body, a0["p"]["l"], closures)
+                        if clo is not None and callee in closures and closures[callee] is not clo:
+                            clo = None
+                        if a1.get("k") == "const" or body["locals"][a1["p"]["l"]]["ty"] == "()":
+                            tup = [{"rv": {"ops": []}}] if (a1.get("ty") == "()" or a1.get("k") != "const") else []
+                        else:
+                            tup = [s for b_ in body["blocks"] for s in b_["stmts"] if s["k"] == "Assign" and s["p"]["l"] == a1["p"]["l"] and not s["p"]["proj"]]
+                            tup = tup if len(tup) == 1 and tup[0]["rv"]["k"] == "Aggregate" and tup[0]["rv"]["agg"] == "Tuple" else []
+                        if clo is not None and len(tup) == 1 and clo["arg_count"] == 1 + len(tup[0]["rv"]["ops"]):
+                            selfty = clo["locals"][1]["ty"]
+                            blk = body["blocks"][bi]
+                            if selfty.startswith("&"):
+                                tmp = len(body["locals"])
+                                body["locals"].append({"ty": selfty, "tag": "ref", "name": None})
+                                blk["stmts"].append(_assign(_place(tmp), {"k": "Ref", "mut": selfty.startswith("&mut"), "p": _place(cl)}, t["sp"]))
+                                first = {"k": "move", "p": _place(tmp)}
+                            else:
+                                first = {"k": "copy", "p": _place(cl)}
+                            _inline_call(body, bi, clo, [first] + list(tup[0]["rv"]["ops"]), "closure")
+                            _INLINED.add(strip_generics(clo["path"]))
+                            n += 1
+                            changed = True
+        if not changed:
+            break
+    # drop private helpers that are no longer called from anywhere
+    still = set()
+    for body in raw["bodies"]:
+        for blk in body["blocks"]:
+            t = blk["term"]
+            if t["k"] == "Call":
+                still.add(strip_generics(t.get("resolved") or t.get("callee") or ""))
+    dropped = [p for p in unknown if p not in still and not by_path[p].get("pub")]
+    if dropped:
+        raw["bodies"] = [b for b in raw["bodies"] if strip_generics(b["path"]) not in dropped]
+        for b in raw["bodies"]:
+            # the dropped helpers' own closures: their creation sites were copied into the callers, so they stay reachable by
+            # path (term-level inlining, capture lookups) but are not functions of their own any more
+            if any(strip_generics(b["path"]).startswith(d + "::{closure") for d in dropped):
+                b["consumed"] = True
+    raw["_inlined_helpers"] = {"sites": n, "dropped": sorted(dropped)}
+    return n
+
+
+def _lower_plain(body, bi):
+    """adaptors without a function argument whose data flow is a two-way choice: Option::unwrap_or(opt, d), Result::unwrap_or,
+    Option::ok_or(opt, e)"""
+    blk = body["blocks"][bi]
+    t = blk["term"]
+    if t["k"] != "Call" or not t.get("callee") or t.get("target") is None or t["dest"]["proj"] or len(t["args"]) != 2:
+        return False
+    nm = strip_generics(t["callee"])
+    if nm not in ("core::option::Option::unwrap_or", "core::result::Result::unwrap_or", "core::option::Option::ok_or"):
+        return False
+    recv = t["args"][0]
+    if recv.get("k") not in ("move", "copy") or recv["p"]["proj"]:
+        return False
+    sp, dest, cont = t["sp"], t["dest"], t["target"]
+    adt = OPT if "option" in nm else RES
+    on = 1 if adt == OPT else 0
+    rl = recv["p"]["l"]
+    dl = len(body["locals"])
+    body["locals"].append({"ty": "isize", "tag": "isize", "name": None})
+    pay = _place(rl, [["downcast", on, VARIANTS[adt][on]], ["field", 0, "0"]])
+    yes, no = len(body["blocks"]), len(body["blocks"]) + 1
+    if nm.endswith("ok_or"):
+        ys = _assign(dest, _adt_agg(RES, 0, [{"k": "move", "p": pay}]), sp)
+        ns = _assign(dest, _adt_agg(RES, 1, [copy.deepcopy(t["args"][1])]), sp)
+    else:
+        ys = _assign(dest, _use(pay, "move"), sp)
+        ns = _assign(dest, {"k": "Use", "op": copy.deepcopy(t["args"][1])}, sp)
+    body["blocks"].append({"stmts": [ys], "term": _goto(cont, sp), "cleanup": False})
+    body["blocks"].append({"stmts": [ns], "term": _goto(cont, sp), "cleanup": False})
+    if nm.endswith("ok_or"):
+        # (ok_or keeps its term-level alias: formula rules read `checked_x(..).ok_or(e)?` as the arithmetic result; unwrap_or has
+        # no term-level reader - its destination is a local with two definitions, like the `match` it stands for)
+        body.setdefault("lowered_calls", {})[dest["l"]] = {"block": bi, "term": t, "ndefs": 2}
+    blk["stmts"].append(_assign(_place(dl), {"k": "Discriminant", "p": _place(rl), "adt": adt, "variants": VARIANTS[adt]}, sp))
+    blk["term"] = {"k": "SwitchInt", "discr": {"k": "move", "p": _place(dl)}, "discr_ty": "isize", "targets": [[on, yes]], "otherwise": no, "sp": sp, "lowered": nm}
+    return True
+
+
+def _lower_bool_then(body, bi, closures):
+    """`cond.then(|| v)` / `cond.then_some(v)`: Some(v) when cond else None"""
+    blk = body["blocks"][bi]
+    t = blk["term"]
+    if t["k"] != "Call" or not t.get("callee") or t.get("target") is None or t["dest"]["proj"] or len(t["args"]) != 2:
+        return False
+    nm = strip_generics(t["callee"])
+    if not (nm.startswith("core::bool::") and nm.split("::")[-1] in ("then", "then_some")):
+        return False
+    recv = t["args"][0]
+    if recv.get("k") not in ("move", "copy") or recv["p"]["proj"]:
+        return False
+    sp, dest, cont = t["sp"], t["dest"], t["target"]
+    no = len(body["blocks"])
+    body["blocks"].append({"stmts": [_assign(dest, _adt_agg(OPT, 0, []), sp)], "term": _goto(cont, sp), "cleanup": False})
+    if nm.endswith("then_some"):
+        yes = len(body["blocks"])
+        body["blocks"].append({"stmts": [_assign(dest, _adt_agg(OPT, 1, [copy.deepcopy(t["args"][1])]), sp)], "term": _goto(cont, sp), "cleanup": False})
+    else:
+        clo, clo_local = _closure_of(body, t["args"][1], closures)
+        if clo is None or clo["arg_count"] != 1:
+            body["blocks"].pop()
+            return False
+        after = len(body["blocks"])
+        body["blocks"].append({"stmts": [], "term": _goto(cont, sp), "cleanup": False})
+        yes, lbase = _inline(body, clo, clo_local, [], after, sp)
+        body["blocks"][after]["stmts"].append(_assign(dest, _adt_agg(OPT, 1, [{"k": "move", "p": _place(lbase)}]), sp))
+    # (no term-level alias: nothing reads `then(..)` as a term - the destination is a local with a None and a Some definition)
+    blk["term"] = {"k": "SwitchInt", "discr": copy.deepcopy(recv), "discr_ty": "bool", "targets": [[0, no]], "otherwise": yes, "sp": sp, "lowered": nm}
+    return True
+
+
+def _lower_try_for_each(body, bi, closures):
+    """`it.try_for_each(|x| ..)` / `it.for_each(|x| ..)` -> the loop they are: next(); None => done with the neutral result;
+    Some(x) => the closure's blocks inlined; a breaking result (Err / None / Break) is the call's result, else round again"""
+    blk = body["blocks"][bi]
+    t = blk["term"]
+    if t["k"] != "Call" or not t.get("callee") or t.get("target") is None or t["dest"]["proj"]:
+        return False
+    nm = strip_generics(t["callee"])
+    if nm not in ("core::iter::Iterator::try_for_each", "core::iter::Iterator::for_each") or len(t["args"]) != 2:
+        return False
+    clo, clo_local = _closure_of(body, t["args"][1], closures)
+    recv = t["args"][0]
+    if clo is None or clo["arg_count"] != 2 or recv.get("k") not in ("move", "copy") or recv["p"]["proj"]:
+        return False
+    sp, dest, cont = t["sp"], t["dest"], t["target"]
+    full = t.get("callee_full") or ""
+    if not (full.startswith("<") and " as core::iter::Iterator>" in full):
+        return False
+    ity = full[1:full.index(" as core::iter::Iterator>")]
+    rl = recv["p"]["l"]
+    by_value = not body["locals"][rl]["ty"].startswith("&")
+    dty = body["locals"][dest["l"]]["ty"]
+    is_try = nm.endswith("try_for_each")
+    if is_try:
+        if dty.startswith("core::result::Result"):
+            radt, cont_variant = RES, 0
+        elif dty.startswith("core::option::Option"):
+            radt, cont_variant = OPT, 1
+        else:
+            return False
+    # locals
+    L = body["locals"]
+    item_ty = clo["locals"][2]["ty"]
+    opt_l = len(L)
+    L.append({"ty": "core::option::Option<%s>" % item_ty, "tag": "adt:core::option::Option", "name": None})
+    d_l = len(L)
+    L.append({"ty": "isize", "tag": "isize", "name": None})
+    ref_l = rl
+    pre = []
+    if by_value:
+        ref_l = len(L)
+        L.append({"ty": "&mut " + ity, "tag": "ref", "name": None})
+        pre.append(_assign(_place(ref_l), {"k": "Ref", "mut": True, "p": _place(rl)}, sp))
+    B = body["blocks"]
+    head = len(B)
+    B.append(None)      # head: next()
+    test = len(B)
+    B.append(None)      # switch on the Option
+    done = len(B)
+    B.append(None)
+    after = len(B)
+    B.append(None)      # after the closure
+    entry, lbase = _inline(body, clo, clo_local, [("val", _place(opt_l, [["downcast", 1, "Some"], ["field", 0, "0"]]))], after, sp)
+    res = _place(lbase)
+    B[head] = {"stmts": [], "cleanup": False, "term": {
+        "k": "Call", "callee": "core::iter::Iterator::next", "callee_full": "<%s as core::iter::Iterator>::next" % ity, "callee_crate": "core", "callee_local": False,
+        "targs": [ity], "resolved": "<%s as core::iter::Iterator>::next" % ity, "resolved_kind": "item", "trait_unresolved": False, "trait": "core::iter::Iterator",
+        "args": [{"k": "copy", "p": _place(ref_l)}], "dest": _place(opt_l), "target": test, "unwind": None, "sp": sp, "fn_sp": t.get("fn_sp", sp), "snip": t.get("snip", "")}}
+    B[test] = {"stmts": [_assign(_place(d_l), {"k": "Discriminant", "p": _place(opt_l), "adt": OPT, "variants": VARIANTS[OPT]}, sp)], "cleanup": False,
+               "term": {"k": "SwitchInt", "discr": {"k": "move", "p": _place(d_l)}, "discr_ty": "isize", "targets": [[1, entry]], "otherwise": done, "sp": sp, "lowered": nm}}
+    unit = {"k": "const", "ty": "()", "tag": "unit", "zst": True}
+    if is_try:
+        B[done] = {"stmts": [_assign(dest, _adt_agg(radt, cont_variant, [unit]), sp)], "term": _goto(cont, sp), "cleanup": False}
+        d2 = len(L)
+        L.append({"ty": "isize", "tag": "isize", "name": None})
+        brk = len(B)
+        B.append({"stmts": [_assign(dest, _use(res, "move"), sp)], "term": _goto(cont, sp), "cleanup": False})
+        B[after] = {"stmts": [_assign(_place(d2), {"k": "Discriminant", "p": res, "adt": radt, "variants": VARIANTS[radt]}, sp)], "cleanup": False,
+                    "term": {"k": "SwitchInt", "discr": {"k": "move", "p": _place(d2)}, "discr_ty": "isize", "targets": [[cont_variant, head]], "otherwise": brk, "sp": sp}}
+    else:
+        B[done] = {"stmts": [_assign(dest, {"k": "Use", "op": unit}, sp)], "term": _goto(cont, sp), "cleanup": False}
+        B[after] = {"stmts": [], "term": _goto(head, sp), "cleanup": False}
+    blk["stmts"].extend(pre)
+    blk["term"] = _goto(head, sp)
+    return True
+
+
+# ---------------------------------------------------------------------------------------------------------------------
+# jump threading: the constant a helper returns decides the caller's test of it
+
+_CF = "core::ops::ControlFlow"
+
+
+def _ev_place(env, p):
+    v = env.get(p["l"])
+    for e in p["proj"]:
+        if v is None:
+            return None
+        if e[0] == "downcast":
+            if not (isinstance(v, tuple) and v[0] == "agg" and v[2] == e[1]):
+                return None
+        elif e[0] == "field":
+            if not (isinstance(v, tuple) and v[0] == "agg" and e[1] < len(v[3])):
+                return None
+            v = v[3][e[1]]
+        else:
+            return None
+    return v
+
+
+def _ev_operand(env, op):
+    if op.get("k") == "const":
+        if "val" in op and isinstance(op["val"], int):
+            return ("c", op["val"])
+        if op.get("zst") and op.get("ty") == "()":
+            return ("c", 0)
+        return None
+    if op.get("k") in ("move", "copy"):
+        return _ev_place(env, op["p"])
+    return None
+
+
+def _ev_rvalue(env, rv):
+    k = rv["k"]
+    if k == "Use":
+        return _ev_operand(env, rv["op"])
+    if k == "Aggregate" and rv["agg"] in ("Adt", "Tuple"):
+        return ("agg", rv.get("adt"), rv.get("variant") or 0, [_ev_operand(env, o) for o in rv["ops"]])
+    if k == "Discriminant":
+        v = _ev_place(env, rv["p"])
+        if isinstance(v, tuple) and v[0] == "agg" and (v[1] or "").split("::")[-1] in ("Option", "Result", "ControlFlow"):
+            return ("c", v[2])
+        return None
+    if k == "UnaryOp" and rv["op"] == "Not":
+        v = _ev_operand(env, rv["x"])
+        return ("c", 1 - v[1]) if isinstance(v, tuple) and v[0] == "c" and v[1] in (0, 1) else None
+    if k == "BinaryOp" and rv["op"] in ("Eq", "Ne"):
+        a, b = _ev_operand(env, rv["l"]), _ev_operand(env, rv["r"])
+        if isinstance(a, tuple) and isinstance(b, tuple) and a[0] == "c" and b[0] == "c":
+            return ("c", int((a[1] == b[1]) == (rv["op"] == "Eq")))
+    return None
+
+
+def _thread_from(body, seed, env, budget=14):
+    """follow the control flow out of block `seed` while the values in env decide it.  Phase 1 simulates (read-only) and
+    finds the last test the constant decides; phase 2 gives the blocks up to there private copies (flagged `threaded`: they
+    are control flow only - their statements are the originals' and are not counted twice)."""
+    B = body["blocks"]
+    path = []           # (block, kind, next) along the simulated walk
+    cur = seed
+    env = dict(env)
+    last_decided = -1
+    first = True
+    while budget > 0:
+        budget -= 1
+        blk = B[cur]
+        if not first:
+            for s_ in blk["stmts"]:
+                if s_["k"] == "Assign":
+                    v = _ev_rvalue(env, s_["rv"])
+                    if s_["p"]["proj"] or v is None:
+                        env.pop(s_["p"]["l"], None)
+                    else:
+                        env[s_["p"]["l"]] = v
+                elif s_["k"] == "StorageDead":
+                    env.pop(s_["l"], None)
+        first = False
+        t = blk["term"]
+        if t["k"] == "Goto":
+            nxt, kind = t["target"], "goto"
+        elif t["k"] == "SwitchInt":
+            d = _ev_operand(env, t["discr"])
+            if not (isinstance(d, tuple) and d[0] == "c"):
+                break
+            hit = [tb for v, tb in t["targets"] if v == d[1]]
+            nxt, kind = (hit[0] if hit else t["otherwise"]), "sw"
+            last_decided = len(path)
+        elif t["k"] == "Call" and t.get("target") is not None and strip_generics(t.get("callee") or "").endswith("ops::Try::branch") and not t["dest"]["proj"] and len(t["args"]) == 1:
+            x = _ev_operand(env, t["args"][0])
+            if not (isinstance(x, tuple) and x[0] == "agg" and (x[1] or "").split("::")[-1] in ("Result", "Option")):
+                break
+            is_res = x[1].endswith("Result")
+            good = x[2] == (0 if is_res else 1)
+            env[t["dest"]["l"]] = ("agg", _CF, 0, [x[3][0] if x[3] else None]) if good else ("agg", _CF, 1, [x])
+            nxt, kind = t["target"], "call"
+        else:
+            break
+        if B[nxt].get("cleanup") or any(p_[0] == nxt for p_ in path) or nxt == seed:
+            break
+        path.append((cur, kind, nxt))
+        cur = nxt
+    if last_decided < 0:
+        return 0
+    # phase 2: private copies of path[0..last_decided]'s successors
+    made = 0
+    prev = seed
+    for k in range(last_decided + 1):
+        blk_i, kind, nxt = path[k]
+        t = B[prev]["term"]
+        last = k == last_decided
+        if last:
+            # the decided test itself: the copy `prev` jumps straight to the chosen successor (the original block)
+            B[prev]["term"] = {"k": "Goto", "target": nxt, "sp": t["sp"], "decided": True}
+            break
+        nb = copy.deepcopy(B[nxt])
+        nb["threaded"] = True
+        nb["orig"] = B[nxt].get("orig", nxt)
+        ni = len(B)
+        B.append(nb)
+        made += 1
+        if kind == "sw":
+            B[prev]["term"] = {"k": "Goto", "target": ni, "sp": t["sp"], "decided": True}
+        else:
+            B[prev]["term"] = dict(t, target=ni)
+        prev = ni
+    return made
+
+
+def thread_helper_results(raw):
+    """In functions that had a helper inlined: from every site that gives the helper's result a constant (Ok(false),
+    Some(..), true ..), follow the caller's control flow on private block copies as long as that constant decides it -
+    `if !more { return }` after `let more = helper(..)?` is then a fact of the path, as it was before the extraction."""
+    n = 0
+    for body in raw["bodies"]:
+        B = body["blocks"]
+        seeds = []
+        for bi, blk in enumerate(B):
+            r = blk.get("inl_ret")
+            if r is None or blk["term"]["k"] != "Goto":
+                continue
+            env = {}
+            for s_ in blk["stmts"]:
+                if s_["k"] == "Assign" and not s_["p"]["proj"]:
+                    v = _ev_rvalue(env, s_["rv"])
+                    if v is not None:
+                        env[s_["p"]["l"]] = v
+                    else:
+                        env.pop(s_["p"]["l"], None)
+            if r in env and isinstance(env[r], tuple):
+                seeds.append((bi, env))
+        for bi, env in seeds:
+            if len(B) < 6000:
+                n += _thread_from(body, bi, env)
+    raw["_threaded_blocks"] = n
+    return n
+
+
+def _split_tuple_types(ty):
+    """component types of a tuple type string `(A, B<C, D>, E)` (top-level commas only)"""
+    if not (ty.startswith("(") and ty.endswith(")")):
+        return None
+    inner, out, depth, cur = ty[1:-1], [], 0, ""
+    for ch in inner:
+        if ch in "<([":
+            depth += 1
+        elif ch in ">)]":
+            depth -= 1
+        if ch == "," and depth == 0:
+            out.append(cur.strip())
+            cur = ""
+        else:
+            cur += ch
+    if cur.strip():
+        out.append(cur.strip())
+    return out
+
+
+def split_tuple_locals(raw):
+    """Scalar replacement of tuple temporaries: a local that is only ever assigned whole tuples `(a, b)` and only ever read
+    field by field (`let (x, y) = if c { (a, b) } else { (d, e) }`) becomes one local per field - the shape the same code has
+    when each variable is chosen by its own `if`."""
+    n = 0
+    for body in raw["bodies"]:
+        L = body["locals"]
+        cand = {}
+        for i, l in enumerate(L):
+            if i > body["arg_count"] and l["ty"].startswith("(") and l["ty"] != "()":
+                comps = _split_tuple_types(l["ty"])
+                if comps and len(comps) >= 2:
+                    cand[i] = comps
+        if not cand:
+            continue
+        ndefs = {i: 0 for i in cand}
+        bad = set()
+
+        def visit_place(p, is_def_whole=False):
+            l = p["l"]
+            if l in cand and not is_def_whole:
+                if not (p["proj"] and p["proj"][0][0] == "field"):
+                    bad.add(l)
+            for e in p["proj"]:
+                if e[0] == "index" and e[1] in cand:
+                    bad.add(e[1])
+
+        def visit(x):
+            if isinstance(x, dict):
+                if "proj" in x and isinstance(x.get("l"), int):
+                    visit_place(x)
+                    return
+                if x.get("k") in ("StorageLive", "StorageDead"):
+                    return
+                for k_, v in x.items():
+                    if k_ in ("sp", "fn_sp"):
+                        continue
+                    visit(v)
+            elif isinstance(x, list):
+                for v in x:
+                    visit(v)
+        for blk in body["blocks"]:
+            for s_ in blk["stmts"]:
+                if s_["k"] == "Assign" and s_["p"]["l"] in cand and not s_["p"]["proj"]:
+                    rv = s_["rv"]
+                    if rv["k"] == "Aggregate" and rv["agg"] == "Tuple" and len(rv["ops"]) == len(cand[s_["p"]["l"]]):
+                        ndefs[s_["p"]["l"]] += 1
+                        visit(rv)
+                        continue
+                    bad.add(s_["p"]["l"])
+                    visit(rv)
+                    continue
+                visit(s_)
+            t = blk["term"]
+            if t["k"] == "Call" and t["dest"]["l"] in cand and not t["dest"]["proj"]:
+                bad.add(t["dest"]["l"])
+            visit({k_: v for k_, v in t.items() if k_ != "dest"})
+            if t["k"] == "Call":
+                visit_place(t["dest"], is_def_whole=not t["dest"]["proj"])
+        todo = [i for i in cand if i not in bad and ndefs[i] >= 2]
+        if not todo:
+            continue
+        fmap = {}
+        for i in todo:
+            fmap[i] = []
+            for k_, cty in enumerate(cand[i]):
+                fmap[i].append(len(L))
+                L.append({"ty": cty, "tag": cty, "name": (L[i].get("name") or None)})
+
+        def rewrite(x):
+            if isinstance(x, dict):
+                if "proj" in x and isinstance(x.get("l"), int) and x["l"] in fmap and x["proj"] and x["proj"][0][0] == "field":
+                    x["l"] = fmap[x["l"]][x["proj"][0][1]]
+                    x["proj"] = x["proj"][1:]
+                for k_, v in x.items():
+                    if k_ not in ("sp", "fn_sp"):
+                        rewrite(v)
+            elif isinstance(x, list):
+                for v in x:
+                    rewrite(v)
+        for blk in body["blocks"]:
+            new_stmts = []
+            for s_ in blk["stmts"]:
+                if s_["k"] == "Assign" and s_["p"]["l"] in fmap and not s_["p"]["proj"]:
+                    for k_, op in enumerate(s_["rv"]["ops"]):
+                        new_stmts.append(_assign(_place(fmap[s_["p"]["l"]][k_]), {"k": "Use", "op": op}, s_["sp"]))
+                    continue
+                if s_["k"] in ("StorageLive", "StorageDead") and s_["l"] in fmap:
+                    continue
+                new_stmts.append(s_)
+            blk["stmts"] = new_stmts
+            rewrite(blk["stmts"])
+            rewrite(blk["term"])
+        n += len(todo)
+    raw["_split_tuples"] = n
+    return n
+
+
+def _clo_key(ty):
+    if "{closure@" not in ty:
+        return None
+    k = ty[ty.index("{closure@"):]
+    return k[:k.index("}") + 1]
+
+
+def _mark_consumed(raw):
+    """a closure is consumed when it was inlined somewhere and no value of its type (or reference to one) is still passed
+    to a call: its statements are in the caller(s) now"""
+    used_inline = raw.get("_inlined_closures", set())
+    if not used_inline:
+        return
+    still = set()
+    for body in raw["bodies"]:
+        for blk in body["blocks"]:
+            t = blk["term"]
+            if t["k"] != "Call":
+                continue
+            for a in t["args"]:
+                if a.get("k") in ("move", "copy"):
+                    k = _clo_key(body["locals"][a["p"]["l"]]["ty"])
+                    if k:
+                        still.add(k)
+    for b in raw["bodies"]:
+        if b["kind"] == "Closure" and strip_generics(b["path"]) in used_inline and _clo_key(b["locals"][1]["ty"]) not in still:
+            b["consumed"] = True
+
+
 def lower_adaptors(raw):
     """Rewrite raw["bodies"] in place (idempotent: a lowered call is no longer a call).  -> number of call sites lowered"""
     if raw.get("_lowered"):
         return 0
     closures = {strip_generics(b["path"]): b for b in raw["bodies"] if b["kind"] == "Closure"}
     n = 0
+    _INLINED.clear()
     # innermost closures first, so that an inlined body is already lowered
     order = sorted(raw["bodies"], key=lambda b: -b["path"].count("{closure"))
     for body in order:
         for bi in range(len(body["blocks"])):
-            if _lower_call(body, bi, closures):
+            if _lower_call(body, bi, closures) or _lower_try_for_each(body, bi, closures) or _lower_plain(body, bi) or _lower_bool_then(body, bi, closures):
                 n += 1
     raw["_lowered"] = True
     raw["_lowered_sites"] = n
+    inline_helpers(raw)
+    thread_helper_results(raw)
+    split_tuple_locals(raw)
+    raw["_inlined_closures"] = set(_INLINED)
+    _mark_consumed(raw)
     return n
